@@ -43,14 +43,14 @@ def _utf8_valid(sx, bs):
 LAST_Q = ["sendClose", "send", "peerClose", "peerData", "peerViolation", "timer", "peerDrop", "ownDrop"]
 
 
-def lifecycle(sx, server, fbd, echo, first, K, tmo, full=False, second=None, quick=False):
+def lifecycle(sx, server, fbd, echo, first, K, tmo, full=False, second=None, quick=False, fw="twisted"):
     from twisted.python.failure import Failure
     from twisted.internet.error import ConnectionDone, ConnectionLost
     from autobahn.exception import Disconnected
     opts = dict(failByDrop=fbd, echoCloseCodeReason=echo, closeHandshakeTimeout=tmo[0])
     if not server:
         opts["serverConnectionDropTimeout"] = tmo[1]
-    clock, trace, ep, rnd = wslib.open_one(sx, server, opts, fixed_rnd=True)
+    clock, trace, ep, rnd = wslib.open_one(sx, server, opts, fixed_rnd=True, fw=fw)
     p, t, who = ep.p, ep.t, ep.who
     mask = (lambda k: sx.bytes("mk%d" % k, 4)) if server else (lambda k: None)
     ranks = [RANK[p.state]]
@@ -66,7 +66,7 @@ def lifecycle(sx, server, fbd, echo, first, K, tmo, full=False, second=None, qui
         if not lost[0]:
             lost[0] = True
             trace.append((who, "LOST"))
-            p.connectionLost(Failure(reason))
+            wslib.lost(ep, fw, clean=isinstance(reason, ConnectionDone))
 
     def note_state():
         r = RANK[p.state]
@@ -189,7 +189,7 @@ def lifecycle(sx, server, fbd, echo, first, K, tmo, full=False, second=None, qui
             # event happens (the queue drains with 10 microsecond timer calls)
             wslib.drain(clock)
         note_state()
-    info = dict(events=log, server=server, fbd=fbd, echo=echo)
+    info = dict(events=log, server=server, fbd=fbd, echo=echo, fw=fw)
     # ---- bounded-time: once closing began, CLOSED is reached within the configured timeouts
     #   we closed first, no reply yet      : closeHandshakeTimeout after our close frame
     #   we closed first, peer replied      : server drops at once; client waits serverConnectionDropTimeout after the reply
@@ -235,6 +235,10 @@ def lifecycle(sx, server, fbd, echo, first, K, tmo, full=False, second=None, qui
     if idx_close:
         sx.check(bool(idx_lost) and idx_lost[0] < idx_close[0], "onClose-only-after-transport-gone", info=info)
         after = [e for e in trace[idx_close[0] + 1:] if e[0] == who]
+        if fw == "asyncio":
+            # the asyncio adapter calls transport.close() on the already lost transport when connection_lost() carries an exception
+            # (asyncio idiom; a no-op there): a close request is neither a delivery nor a write
+            after = [e for e in after if e[1] not in ("lose", "abort")]
         sx.check(len(after) == 0, "nothing-delivered-or-written-after-onClose", info=info)
     # frames we wrote
     wire = wslib.concat(t.take())
@@ -330,6 +334,12 @@ def units(tier):
                              ("peerClose", "timer"), ("sendClose", "timer"), ("peerClose", "peerDrop"), ("sendClose", "peerDrop")):
                     U.append(("codes/%s/%s/%s/%s+%s" % ("S" if server else "C", "drop" if fbd else "hs", "echo" if echo else "-", a, b),
                               "lifecycle", dict(server=server, fbd=fbd, echo=echo, first=a, second=b, K=2, tmo=[1, 1], full=True), dict(weight=6)))
+    # the asyncio adapter on a virtual-time event loop (own interpreter per unit): same event alphabet, same monitors
+    for server in (True, False):
+        for fbd in ((False,) if q else (True, False)):
+            for first in (("sendClose", "peerClose", "peerViolation") if q else ("sendClose", "peerClose", "peerViolation", "send", "timer", "peerDrop")):
+                U.append(("aio/life/%s/%s/%s" % ("S" if server else "C", "drop" if fbd else "hs", first), "lifecycle",
+                          dict(server=server, fbd=fbd, echo=False, first=first, K=2 if q else 3, tmo=[1, 1], quick=False, fw="asyncio"), dict(weight=8, framework="asyncio")))
     for ncp in ((1, 2, 3) if q else (1, 2, 3, 4)):
         for limit in range(0, 13 if q else 17):
             U.append(("trunc/%d/%d" % (ncp, limit), "truncate", dict(ncp=ncp, limit=limit, prefix_len=0)))
